@@ -197,6 +197,21 @@ func (s ElemSet) build() built {
 			}
 			return m.OctTreeWithAttributeAndDepth("RestPosition", d)
 		}}
+	case "fat-points":
+		// elements of the caller's own making: trees.Element promises a bounding box, not a minimal one
+		// (a margin for motion, a box shared with a coarser level of detail).  Point k sits at its
+		// lattice point inside a box that is larger by a margin of its own.
+		var els []trees.Element
+		for i, e := range s.Elems {
+			els = append(els, fatPoint{latPoint(e[0]), fatMargins[(i*3+e[0])%len(fatMargins)]})
+		}
+		return built{els, func(d int) *trees.OctTree {
+			cp := append([]trees.Element{}, els...)
+			if d == autoDepth {
+				return trees.NewOctree(cp)
+			}
+			return trees.NewOctreeWithDepth(cp, d)
+		}}
 	case "strip":
 		m := modeling.NewMesh(modeling.LineStripTopology, append([]int{}, s.Elems[0]...)).SetFloat3Attribute(modeling.PositionAttribute, latTable())
 		return built{scope(m), meshTree(m)}
@@ -218,6 +233,18 @@ func (s ElemSet) build() built {
 	}
 	panic("unknown kind " + s.Kind)
 }
+
+var fatMargins = []float64{0, 0.5, 1.25, 0.25, 2}
+
+type fatPoint struct {
+	p V3
+	m float64
+}
+
+func (f fatPoint) BoundingBox() geometry.AABB {
+	return geometry.NewAABB(f.p, v3(2*f.m, 2*f.m, 2*f.m))
+}
+func (f fatPoint) ClosestPoint(V3) V3 { return f.p }
 
 // ---- per-set oracle tables (independent of the depth) ----
 
@@ -446,7 +473,12 @@ func (k *checker) queries(so *setOracle, depth int, only *Query) {
 		c.Eval(kind+"/empty-set", "nil-tree")
 		return
 	}
-	want := func(t string) bool { return only == nil || only.Type == t }
+	want := func(t string) bool {
+		if kind == "fat-points" && t != "closest" {
+			return false // bounds queries are answered by the elements' (deliberately loose) boxes: only the closest point is defined by the elements themselves
+		}
+		return only == nil || only.Type == t
+	}
 	same := func(q Query) bool { return only == nil || fmt.Sprint(*only) == fmt.Sprint(q) }
 	guarded := func(scope string, q Query, f func()) bool {
 		o := core.Guard(f)
@@ -683,7 +715,9 @@ func (k *checker) runSet(s ElemSet) {
 	if so.degen {
 		c.ReportedOnly(s.Kind+"/closest-degenerate-element", "zero-length segments / zero-area triangles have no defined closest point (NaN from the primitive): outside the well-formed element sets, bounds queries are still checked")
 	}
-	k.predicates(so, nil)
+	if s.Kind != "fat-points" {
+		k.predicates(so, nil)
+	}
 	for _, d := range depths {
 		k.queries(so, d, nil)
 	}
@@ -833,6 +867,23 @@ func families(c *core.Ctx) []family {
 	fams = append(fams, family{"points", fmt.Sprintf("every multiset of 1..%d points of the lattice {0,1,2}^3", maxP), func(y func(ElemSet) bool) {
 		multisets(27, maxP, func(t []int) bool {
 			s := ElemSet{Kind: "points"}
+			for _, p := range t {
+				s.Elems = append(s.Elems, []int{p})
+			}
+			return y(s)
+		})
+	}})
+	fams = append(fams, family{"fat-points", fmt.Sprintf("every set of 2..%d distinct lattice points as caller-made elements whose bounding boxes exceed them by margins %v (closest-point queries only)", maxP, fatMargins), func(y func(ElemSet) bool) {
+		multisets(27, maxP, func(t []int) bool {
+			if len(t) < 2 {
+				return true
+			}
+			for i := 1; i < len(t); i++ {
+				if t[i] == t[i-1] {
+					return true
+				}
+			}
+			s := ElemSet{Kind: "fat-points"}
 			for _, p := range t {
 				s.Elems = append(s.Elems, []int{p})
 			}
